@@ -108,6 +108,11 @@ SCENARIOS = [
 ]
 
 
+# ties between the function bodies translated from the Rust source on every run (Gen/Fns.lean) and the hand-written models
+THEOREM_MODULES.append("Yarel.Props.FnsTie.Index")
+REQUIRED_THEOREMS += ['range_iter_new_tie', 'range_iter_next_tie', 'vec_iter_next_tie', 'tuple_iter_next_same']
+
+
 def canon_item(s):
     if s == "-0":
         return "0"      # the model's chains compute over integers; the sign of a zero product is number semantics (C05/C19)
